@@ -11,10 +11,11 @@ EXPLANATION = (
     "header integers, link entries and note bytes SYMBOLIC -- controller words over the whole 32-bit range, i.e. including values outside the ranges the "
     "library knows.  Y = save(load(X)), Y' = save(load(Y)) through the real reader/writer; Y == Y' as byte strings is asserted.  save-after-load is a "
     "deterministic function of the bytes, so Y' == Y for all X gives stability for every number n >= 1 of cycles.  Purity: the snapshot of the loaded "
-    "object before and after write_to, and two consecutive write_to results, are compared in the same harness."
+    "object before and after write_to, and two consecutive write_to results, are compared in the same harness; purity.built does the same for a project built "
+    "through the API (states no loaded file shows, e.g. a trailing freed link slot)."
 )
 BOUNDS = {"quick": {"controller words": "2 symbolic 32-bit words per obligation (the other stored values seeded in range), one obligation per controller pair of 6 seeded types + every negative-minimum controller kind; 6 seeded fixtures with 2 CVALs replaced",
-                    "options": "every byte of the options record symbolic (5 types)", "header": "all u32/i32 project fields", "links/notes": "as C08 reference files / C12 cells"},
+                    "options": "every byte of the options record symbolic (5 types)", "header": "all u32/i32 project fields", "links/notes": "as C08 reference files / C12 cells", "purity on built objects": "Project[Output, 3 modules, pattern] built through the API with one link freed at a symbolic place; raw link lists compared"},
           "thorough": {"controller words": "every controller of every type (pairs), all fixtures <= 3 KB", "options": "as quick", "header": "as quick"}}
 OUTSIDE = ["stored enum values that are not members: the load raises ValueError, so there is no Y (reported under C04's notes)", "more than 2 out-of-range controller words in one file at once"]
 ASSUMPTIONS = ["X is loadable (an X on which the load raises is outside the property)"]
